@@ -894,7 +894,9 @@ def format_exceptions_entries(ctx, drv=None):
                                 top = top.decode("utf-8", "replace")
                             tp, te = page_only(top)
                             impl = "%d %d" % (len(user_ctx._buffer_stack), 1 if (tp and te) else 0)
-                            model = model_shared.setdefault("x", drv.ask("tgt sharedstack 3"))
+                            if "x" not in model_shared:         # one driver round trip per run
+                                model_shared["x"] = drv.ask("tgt sharedstack 3")
+                            model = model_shared["x"]
                             if seen[0]._buffer_stack is not user_ctx._buffer_stack:
                                 ctx.disagree("corr.shared_stack", case, "the error path's context shares the caller's list",
                                              "a different list object")
